@@ -56,6 +56,7 @@ type Op struct {
 	ENil  bool   `json:"en,omitempty"` // entropy is a nil slice
 	ESegs []Seg  `json:"es,omitempty"`
 	Buf   int    `json:"buf,omitempty"` // >0: use (and keep) caller-owned buffer number Buf for the entropy
+	Cap   int    `json:"cap,omitempty"` // >0: give the entropy slice Cap bytes of spare capacity filled with 0xA5 and report them too
 
 	N int64 `json:"n,omitempty"` // word count
 
@@ -163,6 +164,10 @@ type Conc struct {
 	GoMaxProcs int    `json:"gmp"`
 	Workers    [][]Op `json:"w"`
 	Shared     *Src   `json:"shared,omitempty"` // installed before the workers start; Read is mutex protected
+	// Pre is executed sequentially by the main goroutine before the workers are
+	// created (a history: failing calls, unsupported values, first uses); its
+	// results are reported with G == -1.
+	Pre []Op `json:"pre,omitempty"`
 	// Loops > 1: every worker runs its op list Loops times. The first pass is
 	// recorded call by call; for the later passes the child only keeps, per op, one
 	// sample of every DISTINCT observation (result, error, panic) with a count.
